@@ -127,4 +127,6 @@ Next ==
         ELSE /\ blk' = fa[2] /\ idx' = fa[3] /\ stk' = ca[2] /\ env' = ca[3] /\ rv' = ca[4] /\ UNCHANGED <<tid, bad, drift>>
 SamePaths == bad \in {"ok", "refused"}
 NoDrift == ~drift
+\* what a counterexample prints (the continuation stack and the valuation can be large)
+Small == [tid |-> tid, blk |-> blk, bad |-> bad, drift |-> drift]
 =============================================================================
